@@ -5,6 +5,5 @@ cd "$(dirname "$0")"
 export CARGO_NET_OFFLINE=true
 mkdir -p .cache
 (cd tools/vx && CARGO_TARGET_DIR=../../.cache/vx-target cargo build --release --offline --quiet)
-cp /repo/Cargo.lock replay/Cargo.lock 2>/dev/null || true
 (cd replay && CARGO_TARGET_DIR=../.cache/replay-target cargo build --offline --quiet)
 echo "setup ok"
